@@ -22,7 +22,7 @@ for t in targets:
         execs += s.get("execs", 0)
         cases += s.get("cases", 0)
         nontrivial += s.get("nontrivial", 0)
-        samples += s.get("samples", [])[:3]
+        samples += s.get("samples", [])[-2:]
     log = ""
     try:
         log = open(os.path.join(logdir, f"{t}.log"), errors="replace").read()
